@@ -216,6 +216,74 @@ func runC09(c *eng.Ctx) {
 
 	// ---- R9
 	r9 := c.Rule("C09.R9", "D:provenance", "handleWatchEvent: the object-and-filter-result that is cached and sent with the event has one source, applyFilter run on the object delivered with this notification", 2)
+	func() {
+		// applyFilter with a jq filter: the result of the filter is what filterResult shows, whatever it is (an empty
+		// object is a result too): assuming a jq filter and no filter function, every successful return has passed
+		// the store of the filter's output into FilterResult
+		r := r9
+		fo, _ := p.Object(pkgKem, "applyFilter").(*types.Func)
+		if fo == nil {
+			return
+		}
+		f := p.FuncOf(fo)
+		if f == nil {
+			return
+		}
+		c.Touch(f)
+		info := f.Pkg.TypesInfo
+		g := p.GraphOf(f)
+		fr := p.Field(pkgKemT, "ObjectAndFilterResult", "FilterResult")
+		sig := fo.Type().(*types.Signature)
+		jqPrm := paramLike(sig, 0, func(t types.Type) bool { b, ok := t.Underlying().(*types.Basic); return ok && b.Kind() == types.String })
+		fnPrm := paramLike(sig, 2, func(t types.Type) bool { _, ok := t.Underlying().(*types.Signature); return ok })
+		assumed := func(fc eng.Fact) bool {
+			x, y, eq, isEq := eng.EqAtom(fc)
+			if !isEq {
+				return false
+			}
+			for i := 0; i < 2; i++ {
+				if eng.SelObj(info, x) == types.Object(jqPrm) {
+					if v, isC := eng.ConstStr(info, y); isC && v == "" {
+						return !eq // the filter is not empty
+					}
+				}
+				if eng.SelObj(info, x) == types.Object(fnPrm) && eng.IsNil(info, y) {
+					return eq // no filter function
+				}
+				x, y = y, x
+			}
+			return false
+		}
+		var filtered types.Object
+		for _, n := range g.Nodes {
+			if as, ok := n.Node.(*ast.AssignStmt); ok && len(as.Rhs) == 1 && len(as.Lhs) >= 1 {
+				if cl, isC := ast.Unparen(as.Rhs[0]).(*ast.CallExpr); isC && isCallNamed(info, cl, "ApplyFilter") {
+					filtered = eng.SelObj(info, as.Lhs[0])
+				}
+			}
+		}
+		stores := func(n *eng.GNode) bool {
+			as, ok := n.Node.(*ast.AssignStmt)
+			if !ok || len(as.Lhs) != 1 || len(as.Rhs) != 1 || !eng.IsField(info, as.Lhs[0], fr) {
+				return false
+			}
+			return filtered != nil && eng.SelObj(info, as.Rhs[0]) == filtered
+		}
+		okAll := filtered != nil
+		nret := 0
+		reach := g.Reach(eng.Query{FromEntry: true, Assume: assumed, AvoidEdge: g.Infeasible(assumed), AvoidNode: stores})
+		for n := range reach {
+			if ret, isR := eng.IsReturn(n); isR && len(ret.Results) == 2 && eng.IsNil(info, ret.Results[1]) {
+				okAll = false
+			}
+		}
+		for _, n := range g.Nodes {
+			if ret, isR := eng.IsReturn(n); isR && len(ret.Results) == 2 && eng.IsNil(info, ret.Results[1]) {
+				nret++
+			}
+		}
+		r.Check(okAll && nret > 0, f.Key+" jq result stored", f.Decl.Pos(), "with a jq filter, FilterResult is the filter's output on every successful return", "with a jq filter applyFilter can return without storing the filter's output in FilterResult (e.g. when the output is an empty object): filterResult is then null although jq printed a value")
+	}()
 	if f := r9.NeedFunc(pkgKem + ".(*resourceInformer).handleWatchEvent"); f != nil {
 		info := f.Pkg.TypesInfo
 		applyF, _ := p.Object(pkgKem, "applyFilter").(*types.Func)
